@@ -1,52 +1,9 @@
 //! C04 — Orswot is an observed-remove, add-wins set.
-use super::common::*;
+use super::generic::*;
 use crate::engine::*;
 use crate::plan::*;
 use crate::sim::*;
 use crate::subject::orswot::SOrswot;
-
-/// Run a plan on subject S and compare every read of the affected replica with the model after every step.
-pub fn model_check<S: Subject>(plan: &Plan, cfg: &RunCfg, stats: &mut Stats, nontrivial: &dyn Fn(&Sim<S>) -> bool, what: &str) -> Result<(), Fail> {
-    let mut sim = new_sim::<S>(plan, cfg, stats);
-    for step in &plan.steps {
-        let ev = sim.step(step);
-        if let Some(r) = affected(&ev) {
-            let got = S::observe(&sim.reps[r].st);
-            let want = S::predict(&sim.metas, sim.reps[r].know).expect("subject has a model");
-            stats.observations += got.len() as u64;
-            let d = diff_points(&got, &want);
-            if !d.is_empty() {
-                let f = Fail::new(mismatch_msg(what, r, &d, &got, &want));
-                return Err(fail_with(&sim, stats, f));
-            }
-        }
-    }
-    classify_common(&sim, stats);
-    if nontrivial(&sim) {
-        stats.cur_nontrivial = true;
-        stats.class("nontrivial");
-    }
-    finish(&sim, stats);
-    Ok(())
-}
-
-pub fn classify_common<S: Subject>(sim: &Sim<S>, stats: &mut Stats) {
-    if has_concurrent_same_elem(&sim.metas) {
-        stats.class("concurrent ops on the same element");
-    }
-    if has_remote_observed_remove(&sim.metas) {
-        stats.class("remove that observed a remote update");
-    }
-    if sim.reps.iter().any(|r| r.merged) {
-        stats.class("has merge");
-    }
-    if sim.reps.iter().any(|r| !sim.closed(r.know)) {
-        stats.class("ends with a non-causally-closed replica");
-    }
-    if actors_with_dots(&sim.metas) >= 3 {
-        stats.class("3+ actors issued dots");
-    }
-}
 
 /// add-wins situation present and known to some replica
 pub fn add_wins_situation<S: Subject>(sim: &Sim<S>) -> bool {
@@ -83,10 +40,10 @@ pub fn property() -> Property {
     ];
     for (label, disc, w, newest, q, t) in variants {
         let pc = PlanCfg::new(w).steps(4, 28);
-        let mut cfg = RunCfg::new(disc);
-        cfg.newest_first = newest;
+        let mut ctx = Ctx::new(disc);
+        ctx.cfg.newest_first = newest;
         jobs.push(
-            job(label, q, t, { let pc = pc.clone(); move || plan_strategy(&pc) }, move |p: &Plan, st: &mut Stats| model_check::<SOrswot>(p, &cfg, st, &add_wins_situation::<SOrswot>, "Orswot read differs from the observed-remove/add-wins specification"))
+            job(label, q, t, { let pc = pc.clone(); move || plan_strategy(&pc) }, move |p: &Plan, st: &mut Stats| check_model::<SOrswot>(p, &ctx, st, &add_wins_situation::<SOrswot>, "Orswot read differs from the observed-remove/add-wins specification"))
                 .decoder({ let pc = pc.clone(); move |d: &[u8]| decode_plan(&pc, d) })
             .floor("nontrivial", 0.03)
                 .boxed(),
